@@ -95,7 +95,7 @@ pub fn lc_query_set_to_poly_query_set<'a>(linear_combinations: Vec<&'a LinearCom
 //@closure |lc| => |lc: &'a LinearCombination| -> (kv: (&String, &LinearCombination)) ensures *kv.0 == lc.label, kv.1 == lc
 //@rw 1 /for \(lc_label, \(point_label, point\)\) in([^{]*?)query_set([^{]*)\{/ => let qv__ = query_set_to_vec(query_set); for q__ in\1qv__.iter()\2{ let lc_label: &String = &q__.0; let point_label: &String = &q__.1.0; let point: &Pt = &q__.1.1;
 //@rw 1 /linear_combinations\.get\(lc_label\)/ => btree_get_by_label(&linear_combinations, lc_label)
-//@rw 1 /for \(_, poly_label\) in([^{]*?)lc\.iter\(\)\.filter\(\|\(_, l\)\| (.*?)\)((?:\s|\d+)*)\{/ => for ct__ in\1lc.terms.iter()\3{ let poly_label: &LCTerm = &ct__.1; let l: &LCTerm = poly_label; let ghost b = it2.index@; proof { assert(*ct__ == lc.terms@[b]); } if \2 {
+//@rw 1 /for \(_, poly_label\) in([^{]*?)lc\s*\.iter\(\)\s*\.filter\(\|\((\w+), l\)\| (.*?)\)((?:\s|\d+)*)\{/ => for ct__ in\1lc.terms.iter()\4{ let poly_label: &LCTerm = &ct__.1; let l: &LCTerm = poly_label; let \2: &Fr = &ct__.0; let ghost b = it2.index@; proof { assert(*ct__ == lc.terms@[b]); } if \3 {
 //@rw 1 /poly_query_set\.insert\((.*)\);/ => qset_insert(&mut poly_query_set, \1);
 //@rw * /\bl\.into\(\)/ => string_to_string(l)
 //@rw * /point_label\.clone\(\)/ => string_to_string(point_label)
